@@ -6,6 +6,7 @@ import (
 	"fmt"
 	"go/types"
 	"os"
+	"os/exec"
 	"path/filepath"
 	"sort"
 	"strconv"
@@ -36,6 +37,16 @@ type spec struct {
 	builds   int
 }
 
+// WriteProgram writes generated program number i (of the run's seed) to dir.
+func WriteProgram(r *vf.Run, dir string, i int) {
+	rng := r.Rand("program", i)
+	for n, c := range program(rng, 3+rng.IntN(4)) {
+		p := filepath.Join(dir, n)
+		os.MkdirAll(filepath.Dir(p), 0o755)
+		os.WriteFile(p, []byte(c), 0o644)
+	}
+}
+
 func Run(r *vf.Run) {
 	// the monitor's children are race-instrumented builds of this very binary
 	bin := r.BuildBin("vcheck-race", "./cmd/vcheck", true)
@@ -54,6 +65,14 @@ func Run(r *vf.Run) {
 			os.MkdirAll(filepath.Dir(p), 0o755)
 			os.WriteFile(p, []byte(c), 0o644)
 		}
+		// a generated program the toolchain rejects is a generator bug, not an observation
+		bc := exec.Command("go", "build", "./...")
+		bc.Dir = dir
+		bc.Env = vf.GoEnv()
+		if out, err := bc.CombinedOutput(); err != nil {
+			r.Inconclusive("generated program %d does not compile: %s", i, tail(string(out), 400))
+			continue
+		}
 		progs = append(progs, progT{dir, []string{"./..."}, fmt.Sprintf("generated#%d", i)})
 	}
 	// slices of real code with many shared wrappers/instances
@@ -68,7 +87,11 @@ func Run(r *vf.Run) {
 		specs = append(specs, spec{pi, "serial+inst", 1, 0, 1})
 		for k := 0; k < perProg; k++ {
 			mode := []string{"per-package-racing-methodvalue+inst", "parallel", "per-package-racing-methodvalue", "twice", "parallel+inst", "concurrent-build", "per-package-racing-methodvalue+inst", "twice+inst"}[k%8]
-			specs = append(specs, spec{pi, mode, []int{1, 2, 4, 16}[rng.IntN(4)], 1 + rng.IntN(1<<20), r.Pick(2, 4)})
+			nb := r.Pick(2, 4)
+			if strings.HasPrefix(mode, "per-package") && strings.HasPrefix(progs[pi].name, "generated#") {
+				nb = 8 // building is cheap next to loading; each build stages its packages differently
+			}
+			specs = append(specs, spec{pi, mode, []int{1, 2, 4, 16}[rng.IntN(4)], 1 + rng.IntN(1<<20), nb})
 		}
 	}
 	type out struct {
@@ -159,7 +182,7 @@ func Run(r *vf.Run) {
 		o := &outs[i]
 		name := progs[o.s.prog].name
 		desc := map[string]any{"program": name, "mode": o.s.mode, "gomaxprocs": o.s.procs, "hook_seed": o.s.hookSeed}
-		if o.s.prog < nProg {
+		if strings.HasPrefix(name, "generated#") {
 			desc["program_dir_regenerate"] = fmt.Sprintf("generated by c18.program(seed stream program/%d)", o.s.prog)
 		}
 		if o.run.Killed {
